@@ -69,7 +69,11 @@ Qed.
 
 (* ---- tactics over the generated decision trees (never on let-names) *)
 (* the two normalising square roots are 1 on unit quaternions; done before zeta so that only they are visited *)
-Ltac unit_norms := norm1; cbv zeta; unfold Rdiv; rewrite ?Rinv_1, ?Rmult_1_r.
+Ltac unit_norms :=
+  repeat match goal with
+  | |- context [sqrt ?e] => let H := fresh in assert (H : e = 1) by hring; rewrite H; clear H; rewrite sqrt_1
+  end;
+  unfold Rdiv; rewrite ?Rinv_1, ?Rmult_1_r; cbv zeta.
 (* rewrite the radicands |p -+ q|^2 to 2 -+ 2 p.q *)
 Ltac canon_sqrt a b c d w x y z :=
   repeat match goal with
